@@ -28,6 +28,7 @@ The accounted bytes (device.memoryAllocated) are part of the model and of the di
 theorem is stated about them here (C05).
 -/
 import OccaProofs.Lemmas.GcFinal
+import OccaProofs.Lemmas.GcRing
 
 namespace Occa.Gc.C01
 open Occa.Gc
@@ -150,6 +151,70 @@ theorem C01_no_leak (ops : List Op) (vs : List (HKind × Nat))
     · simp
     · simp [hvs k i hl]
   exact ⟨hv, fun hu => no_leak_core (run_inv (ops ++ dropAll vs)) hv hu⟩
+
+/-! ### (g) the intrusive ring of gc.tpp refines the lists of the handle model
+
+`RingRefine.WF L r l`: walking `rightRingEntry` from `r.head` through the link fields `L` visits exactly
+the entries `l` (no repetition, linked both ways, closed).  The list operations `Ring.add` /
+`Ring.remove` are the ones `OccaModel/Gc.lean` uses for every ring of handles and of child objects. -/
+
+section ring
+open RingRefine
+variable {α : Type} [DecidableEq α]
+
+/-- `ring_t::addRef(entry)` of an entry that is in no ring appends it: well-formedness is kept and the
+    ring order becomes `Ring.add l e = l ++ [e]` -/
+theorem C01_ring_addRef_refines {L : Links α} {r : RingP α} {l : List α} {e : α} (hw : WF L r l)
+    (he : e ∉ l) (hu : Unlinked L e) :
+    WF (RingP.addRef L r e).1 (RingP.addRef L r e).2 (Ring.add l e) ∧ Ring.add l e = l ++ [e]
+      ∧ (RingP.addRef L r e).2.useRefs = r.useRefs := by
+  obtain ⟨a, b, c⟩ := addRef_fresh hw he hu
+  exact ⟨by rw [b]; exact a, b, c⟩
+
+/-- `ring_t::removeRef(entry)` of a ring entry erases it (removing the head makes the old tail the
+    new head: `Ring.remove`), keeps well-formedness, and leaves the entry unlinked -/
+theorem C01_ring_removeRef_refines {L : Links α} {r : RingP α} {l : List α} {e : α} (hw : WF L r l)
+    (he : e ∈ l) :
+    WF (RingP.removeRef L r e).1 (RingP.removeRef L r e).2 (Ring.remove l e)
+      ∧ Unlinked (RingP.removeRef L r e).1 e
+      ∧ (Ring.remove l e).Perm (l.erase e)
+      ∧ (RingP.removeRef L r e).2.useRefs = r.useRefs := by
+  obtain ⟨a, b, c⟩ := removeRef_member hw he
+  exact ⟨a, b, Ring.remove_perm_erase l e, c⟩
+
+/-- `removeRef` of an unlinked entry that is not in the ring (the destructor of an object that its owner
+    has already taken out of the ring) leaves the ring as it is -/
+theorem C01_ring_removeRef_absent {L : Links α} {r : RingP α} {l : List α} {e : α} (hw : WF L r l)
+    (he : e ∉ l) (hu : Unlinked L e) :
+    WF (RingP.removeRef L r e).1 (RingP.removeRef L r e).2 l ∧ Ring.remove l e = l :=
+  removeRef_nonmember hw he hu
+
+/-- `ring_t::needsFree()` ↔ the ring is empty and reference counting is on -/
+theorem C01_ring_needsFree_iff {L : Links α} {r : RingP α} {l : List α} (hw : WF L r l) :
+    r.needsFree = true ↔ (l = [] ∧ r.useRefs = true) :=
+  needsFree_iff hw
+
+/-- the list is what a walk along `rightRingEntry` from `head` sees (this is how
+    `modeDevice_t::finishAll` and `ring_t::length` traverse a ring) -/
+theorem C01_ring_walk {L : Links α} {r : RingP α} {h : α} {t : List α} (hw : WF L r (h :: t)) :
+    r.head = some h ∧ L.walk (t.length + 1) h = h :: t :=
+  walk_eq hw
+
+/-- all rings share one link space: an `addRef` / `removeRef` on one ring keeps every ring with other
+    entries well-formed -/
+theorem C01_ring_separation {L : Links α} {r r2 : RingP α} {l l2 : List α} {e : α} (hw : WF L r l)
+    (hw2 : WF L r2 l2) (hd : ∀ x ∈ l2, x ∉ l) :
+    (e ∈ l → WF (RingP.removeRef L r e).1 r2 l2)
+      ∧ (Unlinked L e → e ∉ l2 → WF (RingP.addRef L r e).1 r2 l2) :=
+  ⟨fun he => other_ring_removeRef hw he hw2 hd, fun hu he2 => other_ring_addRef hw hu hw2 hd he2⟩
+
+/-- the hypotheses are satisfiable: the empty ring over unlinked entries is well-formed, and adding
+    1, 2, 3 and removing the head gives the ring 3, 2 (the old tail becomes the head) -/
+example : WF (⟨id, id⟩ : Links Nat) RingP.empty [] := ⟨rfl, List.nodup_nil, trivial⟩
+
+example : Ring.remove (Ring.add (Ring.add (Ring.add ([] : List Nat) 1) 2) 3) 1 = [3, 2] := by decide
+
+end ring
 
 /-! ### the hypotheses are satisfiable by non-trivial histories (kernel-evaluated) -/
 
